@@ -92,6 +92,16 @@ func runReplay(prop, file string) (int, error) {
 		if err := c.judgeDirect([]*docJob{{dc: x.Case, yaml: x.YAML, text: x.Text}}); err != nil {
 			return 2, err
 		}
+	case "hang":
+		var h Hang
+		if err := json.Unmarshal(v.Extra, &h); err != nil || len(h.Scenarios) == 0 {
+			return 2, fmt.Errorf("replay file holds no scenario")
+		}
+		if err := c.runSeq(h.Scenarios); err != nil {
+			if !c.hangViolations() {
+				return 2, err
+			}
+		}
 	default:
 		return 2, fmt.Errorf("unknown replay kind %q", v.Kind)
 	}
